@@ -96,6 +96,56 @@ theorem h1c_ne_zero (b : ℝ) (hb : b ≠ 0) (n : ℕ) (hn : n ≠ 0) : h1c b n 
   have : (n : ℝ) ≠ 0 := by exact_mod_cast hn
   positivity
 
+/-- r-derivative of the series -/
+def h1serR (N : ℕ) (a b Tb T0 r t : ℝ) : ℝ :=
+  (Tb - T0) * ∑ m ∈ range (N - 1), h1K b (m + 1) * sphR (h1c b (m + 1)) r * Real.exp (-a * (h1c b (m + 1) * h1c b (m + 1)) * t)
+
+theorem h1ser_hasDerivAt_r (N : ℕ) (a b Tb T0 r t : ℝ) (hr : r ≠ 0) :
+    HasDerivAt (fun y => h1ser N a b Tb T0 y t) (h1serR N a b Tb T0 r t) r := by
+  unfold h1ser h1serR
+  refine HasDerivAt.const_add Tb (HasDerivAt.const_mul (Tb - T0) ?_)
+  refine HasDerivAt.fun_sum fun m _ => ?_
+  exact ((sph_hasDerivAt (h1c b (m + 1)) r hr).const_mul (h1K b (m + 1))).mul_const _
+
+theorem h1serR_hasDerivAt_r (N : ℕ) (a b Tb T0 r t : ℝ) (hr : r ≠ 0) :
+    HasDerivAt (fun y => h1serR N a b Tb T0 y t)
+      ((Tb - T0) * ∑ m ∈ range (N - 1), h1K b (m + 1) * sphRR (h1c b (m + 1)) r * Real.exp (-a * (h1c b (m + 1) * h1c b (m + 1)) * t)) r := by
+  unfold h1serR
+  refine HasDerivAt.const_mul (Tb - T0) ?_
+  refine HasDerivAt.fun_sum fun m _ => ?_
+  exact ((sphR_hasDerivAt (h1c b (m + 1)) r hr).const_mul (h1K b (m + 1))).mul_const _
+
+theorem h1ser_hasDerivAt_t (N : ℕ) (a b Tb T0 r t : ℝ) :
+    HasDerivAt (fun s => h1ser N a b Tb T0 r s)
+      ((Tb - T0) * ∑ m ∈ range (N - 1), -a * (h1c b (m + 1) * h1c b (m + 1)) *
+        (h1K b (m + 1) * sph (h1c b (m + 1)) r * Real.exp (-a * (h1c b (m + 1) * h1c b (m + 1)) * t))) t := by
+  unfold h1ser
+  refine HasDerivAt.const_add Tb (HasDerivAt.const_mul (Tb - T0) ?_)
+  refine HasDerivAt.fun_sum fun m _ => ?_
+  have h1 : HasDerivAt (fun s : ℝ => -a * (h1c b (m + 1) * h1c b (m + 1)) * s) (-a * (h1c b (m + 1) * h1c b (m + 1))) t := by
+    simpa using (hasDerivAt_id t).const_mul (-a * (h1c b (m + 1) * h1c b (m + 1)))
+  have := h1.exp.const_mul (h1K b (m + 1) * sph (h1c b (m + 1)) r)
+  refine this.congr_deriv ?_
+  ring
+
+/-- radial heat equation for the r ≠ 0 formula, every N -/
+theorem h1_heat_eq (N : ℕ) (a b Tb T0 r t : ℝ) (hr : r ≠ 0) :
+    HeatEqSphere a (h1Series N a b Tb T0) r t := by
+  rw [h1Series_eq]
+  unfold HeatEqSphere dt dxx
+  have hx : (fun y => dx (h1ser N a b Tb T0) y t) =ᶠ[𝓝 r] fun y => h1serR N a b Tb T0 y t := by
+    filter_upwards [isOpen_ne.mem_nhds hr] with y hy
+    exact (h1ser_hasDerivAt_r N a b Tb T0 y t hy).deriv
+  rw [hx.deriv_eq, (h1serR_hasDerivAt_r N a b Tb T0 r t hr).deriv, (h1ser_hasDerivAt_t N a b Tb T0 r t).deriv]
+  have hdx : dx (h1ser N a b Tb T0) r t = h1serR N a b Tb T0 r t := (h1ser_hasDerivAt_r N a b Tb T0 r t hr).deriv
+  rw [hdx]
+  unfold h1serR
+  simp only [mul_add, Finset.mul_sum]
+  rw [← Finset.sum_add_distrib]
+  refine Finset.sum_congr rfl fun m _ => ?_
+  have := sph_operator (h1c b (m + 1)) r hr
+  linear_combination (-(Tb - T0) * a * h1K b (m + 1) * Real.exp (-a * (h1c b (m + 1) * h1c b (m + 1)) * t)) * this
+
 /-- the limit of the r ≠ 0 formula at the coordinate singularity -/
 def h1Centre (N : ℕ) (a b Tb T0 t : ℝ) : ℝ :=
   Tb + (Tb - T0) * ∑ m ∈ range (N - 1), h1K b (m + 1) * h1c b (m + 1) * Real.exp (-a * (h1c b (m + 1) * h1c b (m + 1)) * t)
